@@ -1,7 +1,7 @@
 #!/bin/bash
 # usage: run_all.sh [tier] [seed]  -- run every check, summarise
 tier=${1:-quick}; seed=${2:-0}
-cd /verif
+cd "$(dirname "$0")/.." && mkdir -p out   # (the checkout this script belongs to: /verif, or a vp snapshot of it)
 for i in $(seq -w 1 20); do
   s=$(date +%s)
   VERIF_SEED=$seed /venv/bin/python -m fxmon check C$i --tier $tier > out/run_C$i.log 2>&1; rc=$?
